@@ -6,13 +6,13 @@ FIX_COMMITS = ["7de88560c5", "5379f6c8d1", "4b4b809cc2", "a6f4203039", "d8a222be
 CLAIMED = {
  # id: (design_ref, claim text, not covered / trusted base, technique)
  "C06": ("5/C06",
-   "Static rules over the type-checked SSA of x/lockup/keeper decide, for all inputs and histories at once, structural necessary conditions: coins sent == coins recorded == accumulation delta (same denom/duration keys), end time = block time + duration, matured-unlock guarded by IsUnlocking and BlockTime<EndTime and paying lock.Owner, index add/delete key symmetry, owner guards before every mutation, allow-listed callers of the low-level writers.",
+   "Static rules over the type-checked SSA of x/lockup/keeper decide, for all inputs and histories at once, structural necessary conditions: coins sent == coins recorded == accumulation delta (same denom/duration keys), end time = block time + duration, matured-unlock guarded by IsUnlocking and BlockTime<EndTime and paying lock.Owner, index add/delete key symmetry, owner guards before every mutation, allow-listed callers of the low-level writers. Also: accumulation updates run for every coin of the lock (ForEach), ForceUnlock pays out the lock re-read after begin-unlock (freshness).",
    "Not covered: index = primary records for every query shape over histories, sum-tree internals, conservation as a number. Trusted: go/types, go/ssa, bank keeper and KV store as effect primitives, SDK tx atomicity.",
    "SSA origin-term / dominance / call-graph rules (argument origin, guard, order, pairing, who-may-call)"),
 }
 
 CLAIMED["C12"] = ("5/C12",
-   "Case-partitioned abstract interpretation (sign(N) x sign(D) x rem=0 x |rem| vs half x quotient parity, enumerated exhaustively) of 41 rounding primitives of osmomath/decimal.go proves result = trunc(N/D)+delta with the delta of the documented mode for operands of either sign, with the documented power-of-ten scale/divisor constants evaluated from the package initialisers; effect analysis proves non-mutating forms never write an operand's big.Int and *Mut forms write only the receiver; every magnitude-growing BigDec operation asserts the bit-length bound on all paths.",
+   "Case-partitioned abstract interpretation (sign(N) x sign(D) x rem=0 x |rem| vs half x quotient parity, enumerated exhaustively) of 41 rounding primitives of osmomath/decimal.go proves result = trunc(N/D)+delta with the delta of the documented mode for operands of either sign, with the documented power-of-ten scale/divisor constants evaluated from the package initialisers; effect analysis proves non-mutating forms never write an operand's big.Int and *Mut forms write only the receiver; every magnitude-growing BigDec operation asserts the bit-length bound on all paths. The asserted big.Int is the one returned.",
    "Not covered: exactness of math/big, LegacyDec internals, value-level round-trip of encodings. Trusted: math/big Quo/QuoRem truncation semantics, go/ssa.",
    "finite-domain abstract interpretation over SSA + alias/effect analysis + must-pass-through (dominance) rule")
 
@@ -31,7 +31,7 @@ CLAIMED["C17"] = ("5/C17",
    "SSA guard-disjunct (phi-expanded) dominance rules, cache-context containment, loop/CFG shape rules")
 
 CLAIMED["C13"] = ("5/C13",
-   "Only the 'fails loudly outside the domain' clause and structural side conditions: every documented domain guard of Exp2, the exp2 approximant, LogBase2, CustomBaseLog, Pow, PowApprox, the monotone square roots, OrderOfMagnitude, DivIntByU64ToBigDec and the binary searches is a branch to a panic/error exit on every path to a normal return, compared against the documented constant (evaluated from the package initialiser); the square roots increment r exactly when r^2 < d in both precisions; rounding-mode dispatch selects the matching division; the listed functions do not write their arguments.",
+   "Only the 'fails loudly outside the domain' clause and structural side conditions: every documented domain guard of Exp2, the exp2 approximant, LogBase2, CustomBaseLog, Pow, PowApprox, the monotone square roots, OrderOfMagnitude, DivIntByU64ToBigDec and the binary searches is a branch to a panic/error exit on every path to a normal return, compared against the documented constant (evaluated from the package initialiser); the square roots increment r exactly when r^2 < d in both precisions; rounding-mode dispatch selects the matching division; the listed functions do not write their arguments. Also: binary searches (comparison argument order, which bound moves under which sign, return only when the tolerance is met), Pow splits integer and fractional exponent, SigFigRound rounds the scaled value to nearest.",
    "Not covered: every numeric error bound, monotonicity, binary-search post-conditions (numeric clauses no static argument in reach bounds). Trusted: math/big Sqrt, go/ssa.",
    "SSA guard/dominance rules with constant evaluation + effect analysis")
 
@@ -41,7 +41,7 @@ CLAIMED["C05"] = ("5/C05",
    "SSA origin-term rules incl. limit-on-returned-value (L), phi-edge case rules, sibling agreement")
 
 CLAIMED["C19"] = ("5/C19",
-   "Syntax-tree analyses over the type-checked workspace decide: (X-det) every map range in state-machine code has an order-independent body or is collect-then-sort, and no wall-clock time (except feeding telemetry/logging), randomness, environment read, goroutine or select occurs there, each exception being one named construct with a reason; (X-gen) every field of each of the 18 module GenesisStates is consumed by InitGenesis and produced by ExportGenesis, and InitGenesis does not overwrite imported fields except nil/zero-defaulting; (X-mem) every write to in-memory keeper state is wiring, a rebuild from the store, or a self-validating cache. 4 recorded known findings (poolmanager caches, mint genesis overwrite).",
+   "Syntax-tree analyses over the type-checked workspace decide: (X-det) every map range in state-machine code has an order-independent body or is collect-then-sort, and no wall-clock time (except feeding telemetry/logging), randomness, environment read, goroutine or select occurs there, each exception being one named construct with a reason; (X-gen) every field of each of the 18 module GenesisStates is consumed by InitGenesis and produced by ExportGenesis, and InitGenesis does not overwrite imported fields except nil/zero-defaulting; (X-mem) every write to in-memory keeper state is wiring, a rebuild from the store, or a self-validating cache. 4 recorded known findings (poolmanager caches, mint genesis overwrite). Also: side conditions of the pool-module cache (a hit charges the recorded gas of the read it replaces; filled only in finalize mode; invalidated by the only writer) and genesis rebuild of lockup accumulations keyed like the running chain.",
    "Not covered: bit-identical app hash, losslessness of exported values beyond field coverage, nondeterminism inside dependencies. Trusted: go/types; scoping by package class.",
    "AST/type-based determinism lint, genesis field-coverage analysis, keeper-field write scan with call-graph classification")
 FIX_COMMITS.append("59282cb358")
@@ -49,7 +49,7 @@ FIX_COMMITS.append("d2a0ad067f")
 FIX_COMMITS += ["35b50d1c51", "5b670324a2", "bcb8c3a391"]
 
 CLAIMED["C20"] = ("5/C20",
-   "Interprocedural guard propagation (rule GI) over the workspace call graph: for all 37 message handlers of concentrated-liquidity, lockup, superfluid, tokenfactory and valset-pref (signer field read from each message's GetSigners), every bounded-depth call path to a privileged sink (lock, position and denom mutators) carries a branch that compares a signer-identity value with the stored object's owner/admin and fails on mismatch — directly, via a checked guard helper, inside the sink on all success paths, or modulo the governance-module equality — with three creation/own-index exemptions listed with side conditions.",
+   "Interprocedural guard propagation (rule GI) over the workspace call graph: for all 37 message handlers of concentrated-liquidity, lockup, superfluid, tokenfactory and valset-pref (signer field read from each message's GetSigners), every bounded-depth call path to a privileged sink (lock, position and denom mutators) carries a branch that compares a signer-identity value with the stored object's owner/admin and fails on mismatch — directly, via a checked guard helper, inside the sink on all success paths, or modulo the governance-module equality — with three creation/own-index exemptions listed with side conditions. Also: tokenfactory mint/burn/force-transfer never touch protected module accounts (guards on the very addresses credited/debited, on every iteration over all protected modules; the protected set holds every module account's address).",
    "Not covered: 'all balances and records unchanged' on failure (SDK transaction atomicity trusted), object reachability over histories, wasm hooks. Bounds: call depth 7, helper depth 3; class-hierarchy resolution of interface calls.",
    "call-graph obligation propagation with SSA guard facts (actor-identity / owner-like term classification)")
 
@@ -59,11 +59,11 @@ CLAIMED["C03"] = ("5/C03",
    "direction-lattice abstract interpretation + rounding-class dataflow + SSA guard/order/cache-context rules")
 
 CLAIMED["C01"] = ("5/C01",
-   "Rounding-class dataflow and origin-term rules over concentrated-liquidity decide the structural solvency conditions: deposits and amounts charged use only round-up operations, withdrawals, pay-outs, reward growth and claims only truncations (CalcAmount0/1Delta by branch, CalcActualAmounts flag = sign of the liquidity delta, TruncateInt/DecRoundUp/Dec conversions, fee ceiling); every transfer out of a pool, spread-reward or incentive account is exactly the amount just computed, to the position owner, from the matching account; and the set of functions that send from pool-owned accounts is closed.",
+   "Rounding-class dataflow and origin-term rules over concentrated-liquidity decide the structural solvency conditions: deposits and amounts charged use only round-up operations, withdrawals, pay-outs, reward growth and claims only truncations (CalcAmount0/1Delta by branch, CalcActualAmounts flag = sign of the liquidity delta, TruncateInt/DecRoundUp/Dec conversions, fee ceiling); every transfer out of a pool, spread-reward or incentive account is exactly the amount just computed, to the position owner, from the matching account; and the set of functions that send from pool-owned accounts is closed. Also: swap totals ceil the charged and truncate the paid amount; an exhausted incentive record is deleted exactly when it exists and nothing remains and only positive remainders are written; dust is divided by the remaining shares only when some remain.",
    "Not covered: that accumulated dust over a history covers every claim, lock-bound positions, negative interval accumulator values (history/magnitude clauses). Trusted: C12 rounding classes, bank SendCoins semantics.",
    "rounding-class dataflow (with constant-argument-sensitive helper summaries) + SSA origin-term / guard / who-may-send rules")
 CLAIMED["C07"] = ("5/C07",
-   "Static rules decide: a position update applies the same delta to the lower tick (+net), upper tick (-net), position record and - iff lower <= current < upper - the pool's active liquidity, after validation and before persisting; crossing adds the direction-signed net liquidity of exactly the parsed tick and moves the tick to next-1/next; iterator start bounds; ticks are removed only when reported empty, positions deleted only on full withdrawal, pools uninitialised only without positions; writers of ticks/positions have only the listed callers.",
+   "Static rules decide: a position update applies the same delta to the lower tick (+net), upper tick (-net), position record and - iff lower <= current < upper - the pool's active liquidity, after validation and before persisting; crossing adds the direction-signed net liquidity of exactly the parsed tick and moves the tick to next-1/next; iterator start bounds; ticks are removed only when reported empty, positions deleted only on full withdrawal, pools uninitialised only without positions; writers of ticks/positions have only the listed callers. Also: emptied lower and upper ticks are each removed exactly when reported empty (OnlyWhen + converse), the first position sets the pool's tick with the shared round-down-to-spacing helper.",
    "Not covered: the bookkeeping invariant itself over histories; price/tick numeric agreement. Trusted: KV store, go/ssa.",
    "SSA origin-term / predicate-shape / order / who-may-call rules")
 
@@ -73,12 +73,12 @@ CLAIMED["C18"] = ("5/C18",
    "SSA origin-term / guard-disjunct / order rules")
 
 CLAIMED["C10"] = ("5/C10",
-   "Static rules over x/twap decide: accumulators advance by the old record's last spot price (P0->P0, P1->P1, log2(P0)->geometric) times the canonical-ms difference between the record's time and the new time; the arithmetic strategy reads the quote side's accumulator; the geometric result is inverted exactly under (negative & quote0) or (non-negative & not quote0) (path-sensitive boolean-join expansion); the three error-flag comparisons exist; zero price stamps the error time; lookup is reverse iteration ending at t; pruning deletes only after skipping the newest record; new records update both indexes.",
+   "Static rules over x/twap decide: accumulators advance by the old record's last spot price (P0->P0, P1->P1, log2(P0)->geometric) times the canonical-ms difference between the record's time and the new time; the arithmetic strategy reads the quote side's accumulator; the geometric result is inverted exactly under (negative & quote0) or (non-negative & not quote0) (path-sensitive boolean-join expansion); the three error-flag comparisons exist; zero price stamps the error time; lookup is reverse iteration ending at t; pruning deletes only after skipping the newest record; new records update both indexes. Also: path-resolved cases of getSpotPrices (error or clamp => error time = block time, value = maximum; neither => previous error time); EndBlock updates every changed pool.",
    "Not covered: TWAP = time-weighted mean as a value, min/max bounds, reciprocity, precision (integral over histories). Trusted: Exp2/log2 accuracy, go/ssa.",
    "SSA origin-term rules + path-sensitive guard disjuncts")
 
 CLAIMED["C09"] = ("5/C09",
-   "Static rules over x/incentives decide: budget = coins - distributed over remaining epochs (1 if perpetual, paid-over - filled otherwise; 0 is an error); a lock's share is lock amount x remaining coin integer-divided by lock sum x remaining epochs with no round-up operation anywhere in the distribution; the receiver is the lock's reward receiver or, exactly when empty, its owner; the coins put on a pay-out entry (and handed to a concentrated pool's incentive record) are added to the distributed total (paired-argument rule), which is booked with one filled epoch; pay-outs leave the incentives module to the index-aligned receiver list; activation at start time precedes distribution; finishing only for non-perpetual gauges whose last epoch was filled.",
+   "Static rules over x/incentives decide: budget = coins - distributed over remaining epochs (1 if perpetual, paid-over - filled otherwise; 0 is an error); a lock's share is lock amount x remaining coin integer-divided by lock sum x remaining epochs with no round-up operation anywhere in the distribution; the receiver is the lock's reward receiver or, exactly when empty, its owner; the coins put on a pay-out entry (and handed to a concentrated pool's incentive record) are added to the distributed total (paired-argument rule), which is booked with one filled epoch; pay-outs leave the incentives module to the index-aligned receiver list; activation at start time precedes distribution; finishing only for non-perpetual gauges whose last epoch was filled. Also: loops over locks and gauge coins are left early only by failing; the per-denom lock cache is filled from the minimal duration and filtered per gauge.",
    "Not covered: sum over epochs <= deposit, module balance >= remainders over histories, group gauges. Trusted: bank multi-send semantics, go/ssa.",
    "SSA origin-term / paired-argument / rounding-class rules")
 
@@ -88,22 +88,22 @@ CLAIMED["C14"] = ("5/C14",
    "go/constant evaluation + SSA guard / predicate-shape rules")
 
 CLAIMED["C11"] = ("5/C11",
-   "Static rules over x/superfluid (and lockup's BeginUnlock) decide: mint-for-delegation is paired with a supply offset of the negated amount and the same amount is sent to the intermediary account and delegated; undelegation sends back and burns exactly the instantly-undelegated coins and raises the offset by their bond-denom amount; all cache-context closures of the package use only their own context; delegate records the lock/intermediary connection and a bonded synthetic lock after validating ownership and before staking, undelegate removes both and leaves an unlocking marker; unbonding requires an unlocking synthetic lock; lockup refuses to begin unlocking a lock with synthetic locks.",
+   "Static rules over x/superfluid (and lockup's BeginUnlock) decide: mint-for-delegation is paired with a supply offset of the negated amount and the same amount is sent to the intermediary account and delegated; undelegation sends back and burns exactly the instantly-undelegated coins and raises the offset by their bond-denom amount; all cache-context closures of the package use only their own context; delegate records the lock/intermediary connection and a bonded synthetic lock after validating ownership and before staking, undelegate removes both and leaves an unlocking marker; unbonding requires an unlocking synthetic lock; lockup refuses to begin unlocking a lock with synthetic locks. Also: epoch refresh (current stake 0 or tokens-from-shares, mint/burn by the difference in the right direction, expected = OSMO value of the marker accumulation from the unbonding time up) and staking/unstaking markers (one per lock, denom and end time by status, end = block time + unbonding period, accumulation keyed by the marker's duration on create/delete/top-up/slash).",
    "Not covered: stake = risk-adjusted value within one unit per lock, supply neutrality as a number, drift over epochs. Trusted: staking keeper semantics, cache-context helper (C17).",
    "SSA origin-term / pairing / order rules + cache-context closure containment")
 
 CLAIMED["C02"] = ("5/C02",
-   "Static rules over x/gamm/keeper and x/poolmanager decide: every pool-record mutation is paired on every success path with bank operations on the same coin values (swap: token-in trader->pool, token-out pool->trader; join: coins + share mint; exit: coins + share burn); share mint/burn use the pool's own share denom and the same amount; each of the six join/exit/swap entry points hands the state-change helper exactly the values it gave to or received from the pool model (paired-result rule); the taker fee is the exact difference between the amount paid and the amount that reaches the pool, computed from the very value returned, sent to the collector; the router passes the after-fee coin; pool records are written only by the listed functions.",
+   "Static rules over x/gamm/keeper and x/poolmanager decide: every pool-record mutation is paired on every success path with bank operations on the same coin values (swap: token-in trader->pool, token-out pool->trader; join: coins + share mint; exit: coins + share burn); share mint/burn use the pool's own share denom and the same amount; each of the six join/exit/swap entry points hands the state-change helper exactly the values it gave to or received from the pool model (paired-result rule); the taker fee is the exact difference between the amount paid and the amount that reaches the pool, computed from the very value returned, sent to the collector; the router passes the after-fee coin; pool records are written only by the listed functions. Also: every gamm entry changes the pool model exactly once and settles exactly once (quotes use the read-only Calc* form); the router hands a pool module the pool as read for this hop (freshness with kill semantics).",
    "Not covered: bank balance = reported reserves over histories, supply of non-share tokens, cosmwasm pools, pool-model internals. Trusted: bank keeper semantics.",
    "SSA origin-term / pairing (paired-argument, paired-result) / who-may-call rules")
 
 CLAIMED["C04"] = ("5/C04",
-   "Static rules over the balancer / stableswap pool models and cfmm_common decide: amounts paid out are truncated and amounts charged ceiled at the pool boundary; the spread factor is taken off the input before the curve and grossed up on the required input; exit amounts are truncated with the share and reserve guards in place; proportional joins truncate shares and ceil the used amount; the stableswap solver scales reserves/input down, the requested output up and divides by (1-sf) rounding up; each state-mutating swap returns exactly its pure calculation's result for the same arguments and applies exactly those coins to the reserves.",
+   "Static rules over the balancer / stableswap pool models and cfmm_common decide: amounts paid out are truncated and amounts charged ceiled at the pool boundary; the spread factor is taken off the input before the curve and grossed up on the required input; exit amounts are truncated with the share and reserve guards in place; proportional joins truncate shares and ceil the used amount; the stableswap solver scales reserves/input down, the requested output up and divides by (1-sf) rounding up; each state-mutating swap returns exactly its pure calculation's result for the same arguments and applies exactly those coins to the reserves. Also: the balancer single-asset join/exit formulas apply the fee ratio in the pool's favour (Mul on deposits, Quo on required deposits and withdrawals, 1/(1-exit fee) on shares), the single-asset leg is priced against the caller's interim reserve and share total, and the all-asset join mints exactly the shares the model credited.",
    "Not covered: agreement with the constant-weighted-product formula to powPrecision, monotonicity of the stableswap invariant, value conservation over sequences (numeric). Trusted: osmomath Pow / binary search (C13).",
    "SSA origin-term / rounding-class / sibling-agreement rules")
 
 CLAIMED["C08"] = ("5/C08",
-   "Static rules over concentrated-liquidity reward code decide: crossing flips tick snapshots to (global + this swap's growth) - old and global - old per uptime; a new tick starts with the global value iff current >= tick; growth above/below follows the documented four-case table and uptime growth inside the three-way split (path-sensitive condition matching with infeasible-path pruning); accumulators are accrued to now before positions, ticks or incentive records change and before a position claims; claim = set(init + outside) -> claim -> re-base to global - outside if the position still exists; emission deducts exactly the emitted amount only when the record covers it and only feeds the accumulator of its own uptime; the position age (block time - join time) is compared with each uptime with <.",
+   "Static rules over concentrated-liquidity reward code decide: crossing flips tick snapshots to (global + this swap's growth) - old and global - old per uptime; a new tick starts with the global value iff current >= tick; growth above/below follows the documented four-case table and uptime growth inside the three-way split (path-sensitive condition matching with infeasible-path pruning); accumulators are accrued to now before positions, ticks or incentive records change and before a position claims; claim = set(init + outside) -> claim -> re-base to global - outside if the position still exists; emission deducts exactly the emitted amount only when the record covers it and only feeds the accumulator of its own uptime; the position age (block time - join time) is compared with each uptime with <. Also: one scaling factor per accumulator family, used by growth and claim alike (who-may-call + argument rules); redeposited forfeits start from zero per uptime (no loop-carried accumulator) and are amount / active liquidity.",
    "Not covered: proportionality / identical positions earn identical rewards as numbers, totals claimable vs paid in over histories. Trusted: osmoutils/accum (C15), go/ssa.",
    "SSA origin-term / path-sensitive predicate / order rules")
 
